@@ -1,6 +1,6 @@
 (** Proofs about the back-off arithmetic of Handler/Retry.v (backoff/v3 exponential.go). *)
 From WM Require Import Base.Prelude Handler.Retry.
-From Coq Require Import QArith Qround Qpower Lia Lqa Psatz.
+From Coq Require Import QArith Qround Qpower Lia Lqa.
 Open Scope Z_scope.
 
 Lemma Qtrunc_floor x : (0 <= x)%Q -> Qtrunc x = Qfloor x.
@@ -32,22 +32,26 @@ Section RandValue.
   Proof. rewrite Zle_Qle in Hcur. exact Hcur. Qed.
 
   Lemma rv_min_nonneg : (0 <= rv_min rf cur)%Q.
-  Proof. unfold rv_min. pose proof inj_cur_nonneg. generalize dependent (inject_Z cur). intros q Hq. nra. Qed.
+  Proof.
+    unfold rv_min. pose proof inj_cur_nonneg as Hq.
+    assert (0 <= (1 - rf) * inject_Z cur)%Q as Hp by (apply Qmult_le_0_compat; [lra|assumption]).
+    lra.
+  Qed.
 
   Lemma x_ge_min : (rv_min rf cur <= x)%Q.
   Proof.
     unfold rv_min, rv_max. pose proof inj_cur_nonneg as Hq.
     assert (0 <= rf * inject_Z cur)%Q as Hp by (apply Qmult_le_0_compat; assumption).
-    generalize dependent (rf * inject_Z cur)%Q. intros p Hp.
-    generalize dependent (inject_Z cur). intros q Hq. nra.
+    assert (0 <= rnd * (2 * (rf * inject_Z cur) + 1))%Q as Hw by (apply Qmult_le_0_compat; lra).
+    lra.
   Qed.
 
   Lemma x_lt_max1 : (x < rv_max rf cur + 1)%Q.
   Proof.
     unfold rv_min, rv_max. pose proof inj_cur_nonneg as Hq.
     assert (0 <= rf * inject_Z cur)%Q as Hp by (apply Qmult_le_0_compat; assumption).
-    generalize dependent (rf * inject_Z cur)%Q. intros p Hp.
-    generalize dependent (inject_Z cur). intros q Hq. nra.
+    assert (0 < (1 - rnd) * (2 * (rf * inject_Z cur) + 1))%Q as Hw by (apply Qmult_lt_0_compat; lra).
+    lra.
   Qed.
 
   Lemma rand_value_floor : rand_value rf rnd cur = Qfloor x.
@@ -110,14 +114,18 @@ Section Incr.
   Hypothesis Hm : (0 < mult c)%Q.
   Hypothesis Hmax : 0 <= max_interval c.
 
+  Lemma num_pos : 0 < Qnum (mult c).
+  Proof. destruct (mult c) as [n d]. unfold Qlt in Hm. cbn in *. lia. Qed.
+
   Lemma incr_unfold cur :
     incr_interval c cur =
     if max_interval c * Zpos (Qden (mult c)) <=? cur * Qnum (mult c)
     then max_interval c else Z.quot (cur * Qnum (mult c)) (Zpos (Qden (mult c))).
-  Proof. unfold incr_interval, Qtrunc. destruct (mult c) as [n d]. reflexivity. Qed.
+  Proof.
+    unfold incr_interval, capped, Qtrunc. pose proof num_pos as Hn.
+    apply Z.compare_gt_iff in Hn. rewrite Hn. destruct (mult c) as [n d]. reflexivity.
+  Qed.
 
-  Lemma num_pos : 0 < Qnum (mult c).
-  Proof. destruct (mult c) as [n d]. unfold Qlt in Hm. cbn in *. lia. Qed.
 
   Lemma incr_nonneg cur : 0 <= cur -> 0 <= incr_interval c cur.
   Proof.
